@@ -15,6 +15,7 @@ import (
 	"go/ast"
 	"go/constant"
 	"go/token"
+	"go/types"
 	"strings"
 )
 
@@ -147,20 +148,8 @@ func init() {
 				emitQcmp("clone_sc_cmp_line2", cs[3])
 			}
 		}
-		// classifyCloneType: four comparisons similarity OP threshold
-		if fd := get(p, "clone_detector.go", "CloneDetector", "classifyCloneType"); fd != nil {
-			cs := cmpOps(p, fd)
-			if len(cs) != 4 {
-				fail("classifyCloneType: expected 4 comparisons, got %d", len(cs))
-			} else {
-				for i, c := range cs {
-					if c.x != "similarity" || !strings.HasSuffix(c.y, fmt.Sprintf("Type%dThreshold", i+1)) {
-						fail("classifyCloneType: comparison %d is %s %s %s", i, c.x, c.op, c.y)
-					}
-					emitQcmp(fmt.Sprintf("clone_classify_cmp%d", i+1), c)
-				}
-			}
-		}
+		// classifyCloneType, isOverlappingLocation, shouldIncludeFragment: read by evaluation (goeval.go), not by shape
+		cloneDecisions(&b, p)
 		// isSignificantClone: minThreshold <= 0; pair.Similarity < minThreshold; MaxEditDistance > 0; Distance > Max; minSize >= MinNodes
 		if fd := get(p, "clone_detector.go", "CloneDetector", "isSignificantClone"); fd != nil {
 			cs := cmpOps(p, fd)
@@ -172,24 +161,6 @@ func init() {
 				emitQcmp("clone_sig_cmp_distset", cs[2])
 				emitQcmp("clone_sig_cmp_dist", cs[3])
 				emitZcmp("clone_sig_cmp_size", cs[4])
-			}
-		}
-		if fd := get(p, "clone_detector.go", "CloneDetector", "isOverlappingLocation"); fd != nil {
-			cs := cmpOps(p, fd)
-			if len(cs) != 2 || cs[0].x != "loc1.EndLine" || cs[0].y != "loc2.StartLine" || cs[1].x != "loc2.EndLine" || cs[1].y != "loc1.StartLine" {
-				fail("isOverlappingLocation: unexpected comparisons %v", cs)
-			} else {
-				emitZcmp("clone_overlap_cmp1", cs[0])
-				emitZcmp("clone_overlap_cmp2", cs[1])
-			}
-		}
-		if fd := get(p, "clone_detector.go", "CloneDetector", "shouldIncludeFragment"); fd != nil {
-			cs := cmpOps(p, fd)
-			if len(cs) != 2 || cs[0].x != "fragment.Size" || cs[1].x != "fragment.LineCount" {
-				fail("shouldIncludeFragment: unexpected comparisons %v", cs)
-			} else {
-				emitZcmp("clone_include_cmp_nodes", cs[0]) // true = rejected
-				emitZcmp("clone_include_cmp_lines", cs[1])
 			}
 		}
 		if fd := get(p, "clone_detector.go", "CloneDetector", "tryCreateClonePair"); fd != nil {
@@ -316,4 +287,238 @@ func init() {
 		recordDigest(dp, "clone.go", "CloneRequest", "Validate")
 		recordDigest(dp, "clone.go", "", "ShouldUseLSH")
 	})
+}
+
+// ---------------------------------------------------------------------------------------------------
+// decision functions read by evaluation
+// ---------------------------------------------------------------------------------------------------
+
+// probe3 evaluates f at "left operand one below / equal to / one above the right operand" and names the comparison.
+func probe3(what string, f func(rel int64) (bool, error)) (token.Token, bool) {
+	var r [3]bool
+	for i, rel := range []int64{-1, 0, 1} {
+		v, err := f(rel)
+		if err != nil {
+			fail("%s: cannot be evaluated: %v", what, err)
+			return token.ILLEGAL, false
+		}
+		r[i] = v
+	}
+	op, ok := inferCmp(r[0], r[1], r[2])
+	if !ok {
+		fail("%s: the code does not behave like a comparison of the two modelled operands (below/equal/above -> %v/%v/%v)", what, r[0], r[1], r[2])
+	}
+	return op, ok
+}
+
+func asBool(v Value, err error) (bool, error) {
+	if err != nil {
+		return false, err
+	}
+	b, ok := v.(bool)
+	if !ok {
+		return false, fmt.Errorf("result is %T, not a bool", v)
+	}
+	return b, nil
+}
+
+func asInt(v Value, err error) (int64, error) {
+	if err != nil {
+		return 0, err
+	}
+	n, ok := v.(int64)
+	if !ok {
+		return 0, fmt.Errorf("result is %T, not an integer", v)
+	}
+	return n, nil
+}
+
+func asString(v Value, err error) (string, error) {
+	if err != nil {
+		return "", err
+	}
+	s, ok := v.(string)
+	if !ok {
+		return "", fmt.Errorf("result is %T, not a string", v)
+	}
+	return s, nil
+}
+
+func cloneDecisions(b *strings.Builder, p *pkgInfo) {
+	in := newInterp(p)
+	const file, recv = "clone_detector.go", "CloneDetector"
+	pct := func(n int64) float64 { return float64(n) / 100 }
+	detector := func(t1, t2, t3, t4, minNodes, minLines int64) *Struct {
+		return mkStruct("CloneDetector", "cloneDetectorConfig", mkStruct("CloneDetectorConfig",
+			"Type1Threshold", pct(t1), "Type2Threshold", pct(t2), "Type3Threshold", pct(t3), "Type4Threshold", pct(t4),
+			"MinNodes", minNodes, "MinLines", minLines))
+	}
+	emitQ := func(name, comment string, op token.Token) {
+		s, ok := cloneQCmp(op)
+		if !ok {
+			fail("%s: comparison %s has no Q rendering", name, op)
+			return
+		}
+		fmt.Fprintf(b, "(* %s: behaves as a %s b *)\nDefinition %s (a b : Q) : bool := %s.\n", comment, op, name, s)
+	}
+	emitZ := func(name, comment string, op token.Token) {
+		s, ok := cloneZCmp(op)
+		if !ok {
+			fail("%s: comparison %s has no Z rendering", name, op)
+			return
+		}
+		fmt.Fprintf(b, "(* %s: behaves as a %s b *)\nDefinition %s (a b : Z) : bool := %s.\n", comment, op, name, s)
+	}
+
+	// ---- classifyCloneType(similarity, distance) -----------------------------------------------
+	if fd := findFunc(p, file, recv, "classifyCloneType"); fd == nil {
+		fail("function not found: %s %s.classifyCloneType", file, recv)
+	} else {
+		classify := func(cd *Struct, s int64) (int64, error) { return asInt(in.call1(p, fd, cd, pct(s), float64(0))) }
+		thr := []int64{90, 80, 70, 60}
+		cd := detector(thr[0], thr[1], thr[2], thr[3], 1, 1)
+		// the code of each clone type, through go/types
+		codes := make([]int64, 4)
+		okCodes := true
+		for i := range codes {
+			c, _ := p.pkg.Scope().Lookup(fmt.Sprintf("Type%dClone", i+1)).(*types.Const)
+			if c == nil {
+				fail("classifyCloneType: constant Type%dClone not found", i+1)
+				okCodes = false
+				continue
+			}
+			v, _ := constToValue(c.Val(), c.Type())
+			codes[i], _ = v.(int64)
+		}
+		if okCodes {
+			for i := 0; i < 4; i++ {
+				i := i
+				op, ok := probe3(fmt.Sprintf("classifyCloneType: similarity against Type%dThreshold", i+1), func(rel int64) (bool, error) {
+					c, err := classify(cd, thr[i]+rel)
+					return c == codes[i], err
+				})
+				if ok {
+					emitQ(fmt.Sprintf("clone_classify_cmp%d", i+1), fmt.Sprintf("classifyCloneType, similarity a against Type%dThreshold b", i+1), op)
+				}
+			}
+		}
+		// decision table: (similarity, (t1, t2, t3, t4)) -> clone type code (0 = not a clone)
+		var rows []string
+		for _, ts := range [][4]int64{{90, 80, 70, 60}, {98, 95, 85, 70}, {80, 80, 80, 80}, {60, 70, 80, 90}, {100, 50, 50, 0}, {70, 90, 60, 80}} {
+			cdt := detector(ts[0], ts[1], ts[2], ts[3], 1, 1)
+			seen := map[int64]bool{}
+			var ss []int64
+			for _, t := range append([]int64{0, 100, 101, -1, 55}, ts[:]...) {
+				for _, d := range []int64{-1, 0, 1} {
+					if !seen[t+d] {
+						seen[t+d] = true
+						ss = append(ss, t+d)
+					}
+				}
+			}
+			for _, s := range ss {
+				c, err := classify(cdt, s)
+				if err != nil {
+					fail("classifyCloneType: cannot be evaluated: %v", err)
+					rows = nil
+					break
+				}
+				rows = append(rows, fmt.Sprintf("((%s, (%s, %s, %s, %s)), %s)", coqQfrac(s, 100), coqQfrac(ts[0], 100), coqQfrac(ts[1], 100),
+					coqQfrac(ts[2], 100), coqQfrac(ts[3], 100), coqZint(c)))
+			}
+		}
+		emitTable(b, "classifyCloneType_table", "(Q * (Q * Q * Q * Q)) * Z", rows)
+	}
+
+	// ---- isOverlappingLocation(loc1, loc2) ------------------------------------------------------
+	if fd := findFunc(p, file, recv, "isOverlappingLocation"); fd == nil {
+		fail("function not found: %s %s.isOverlappingLocation", file, recv)
+	} else {
+		cd := detector(90, 80, 70, 60, 1, 1)
+		loc := func(f string, s, e int64) *Struct {
+			return mkStruct("CodeLocation", "FilePath", f, "StartLine", s, "EndLine", e, "StartCol", int64(0), "EndCol", int64(0))
+		}
+		overlap := func(a, c *Struct) (bool, error) { return asBool(in.call1(p, fd, cd, a, c)) }
+		// cmp1 a b: "loc1 ends (a) before loc2 starts (b)" makes the ranges disjoint; the other clause is kept false
+		if op, ok := probe3("isOverlappingLocation: loc1.EndLine against loc2.StartLine", func(rel int64) (bool, error) {
+			o, err := overlap(loc("f", 10, 20+rel), loc("f", 20, 100))
+			return !o, err
+		}); ok {
+			emitZ("clone_overlap_cmp1", "isOverlappingLocation, loc1.EndLine a against loc2.StartLine b (true = disjoint)", op)
+		}
+		if op, ok := probe3("isOverlappingLocation: loc2.EndLine against loc1.StartLine", func(rel int64) (bool, error) {
+			o, err := overlap(loc("f", 20, 100), loc("f", 10, 20+rel))
+			return !o, err
+		}); ok {
+			emitZ("clone_overlap_cmp2", "isOverlappingLocation, loc2.EndLine a against loc1.StartLine b (true = disjoint)", op)
+		}
+		// decision table: ((same file, (start1, end1)), (start2, end2)) -> overlapping
+		var rows []string
+		bad := false
+		for _, same := range []bool{true, false} {
+			hi := int64(4)
+			if !same {
+				hi = 2
+			}
+			for s1 := int64(1); s1 <= hi && !bad; s1++ {
+				for e1 := int64(1); e1 <= hi && !bad; e1++ {
+					for s2 := int64(1); s2 <= hi && !bad; s2++ {
+						for e2 := int64(1); e2 <= hi; e2++ {
+							f2 := "f"
+							if !same {
+								f2 = "g"
+							}
+							o, err := overlap(loc("f", s1, e1), loc(f2, s2, e2))
+							if err != nil {
+								fail("isOverlappingLocation: cannot be evaluated: %v", err)
+								bad = true
+								break
+							}
+							rows = append(rows, fmt.Sprintf("(((%s, (%s, %s)), (%s, %s)), %s)", coqBool(same), coqZint(s1), coqZint(e1), coqZint(s2), coqZint(e2), coqBool(o)))
+						}
+					}
+				}
+			}
+		}
+		if bad {
+			rows = nil
+		}
+		emitTable(b, "isOverlappingLocation_table", "((bool * (Z * Z)) * (Z * Z)) * bool", rows)
+	}
+
+	// ---- shouldIncludeFragment(fragment) --------------------------------------------------------
+	if fd := findFunc(p, file, recv, "shouldIncludeFragment"); fd == nil {
+		fail("function not found: %s %s.shouldIncludeFragment", file, recv)
+	} else {
+		include := func(size, lines, minNodes, minLines int64) (bool, error) {
+			return asBool(in.call1(p, fd, detector(90, 80, 70, 60, minNodes, minLines), mkStruct("CodeFragment", "Size", size, "LineCount", lines)))
+		}
+		if op, ok := probe3("shouldIncludeFragment: fragment.Size against MinNodes", func(rel int64) (bool, error) {
+			o, err := include(20+rel, 1000, 20, 5)
+			return !o, err
+		}); ok {
+			emitZ("clone_include_cmp_nodes", "shouldIncludeFragment, fragment.Size a against MinNodes b (true = rejected)", op)
+		}
+		if op, ok := probe3("shouldIncludeFragment: fragment.LineCount against MinLines", func(rel int64) (bool, error) {
+			o, err := include(1000, 5+rel, 20, 5)
+			return !o, err
+		}); ok {
+			emitZ("clone_include_cmp_lines", "shouldIncludeFragment, fragment.LineCount a against MinLines b (true = rejected)", op)
+		}
+		// decision table: ((size, lines), (minNodes, minLines)) -> included
+		var rows []string
+		for _, m := range [][2]int64{{20, 5}, {1, 1}, {5, 20}, {7, 7}} {
+			for _, ds := range []int64{-1, 0, 1} {
+				for _, dl := range []int64{-1, 0, 1} {
+					o, err := include(m[0]+ds, m[1]+dl, m[0], m[1])
+					if err != nil {
+						fail("shouldIncludeFragment: cannot be evaluated: %v", err)
+						continue
+					}
+					rows = append(rows, fmt.Sprintf("(((%s, %s), (%s, %s)), %s)", coqZint(m[0]+ds), coqZint(m[1]+dl), coqZint(m[0]), coqZint(m[1]), coqBool(o)))
+				}
+			}
+		}
+		emitTable(b, "shouldIncludeFragment_table", "((Z * Z) * (Z * Z)) * bool", rows)
+	}
 }
